@@ -6,6 +6,7 @@ vm_compute and diffed (coq/C14/*Run.v)."""
 import importlib.util
 import json
 import os
+import random
 import subprocess
 import sys
 
@@ -29,7 +30,7 @@ def run_impl(ck, binary, cases, timeout=900):
     outs = run_impl_once(ck, binary, cases, timeout)
     if len(outs) == len(cases) and len(cases) > 20 and not ck.replay:
         idx = list(range(len(cases)))
-        ck.rng.shuffle(idx)
+        random.Random(ck.seed * 7919 + len(cases)).shuffle(idx)     # own stream: the generators' draws are not disturbed
         idx = [i for i in idx if cases[i].get("k") not in ("ftext", "fcanon")][:400]
         again = run_impl_once(ck, binary, [cases[i] for i in idx], timeout)
         if len(again) == len(idx):
